@@ -97,7 +97,7 @@ func lex(src string) ([]token, error) {
 			if line != lastCommentLine+1 {
 				pendingComment.Reset()
 			}
-			pendingComment.WriteString(strings.TrimSpace(src[i+2:j]))
+			pendingComment.WriteString(strings.TrimSpace(src[i+2 : j]))
 			pendingComment.WriteByte('\n')
 			lastCommentLine = line
 			adv(j - i)
